@@ -116,13 +116,30 @@ Section DBL.
     unfold all_ge in H2. rewrite Forall_forall in H2. specialize (H2 _ Hin). lia.
   Qed.
 
-  (** [db_set] with a key above every key present appends. *)
-  Lemma db_set_append k v l : all_lt l k -> db_set k v l = l ++ [(k, v)].
+  (** [db_set] with a key not yet present appends (Python dict: new keys go last). *)
+  Lemma db_set_fresh k v l : ~ In k (map fst l) -> db_set k v l = l ++ [(k, v)].
   Proof.
     induction l as [|[k' v'] r IH]; intros H; cbn [db_set app]; [reflexivity|].
-    inversion H as [|? ? Hx Hr]; subst. cbn [fst] in Hx.
-    destruct (k <? k') eqn:E1; [lia|]. destruct (k =? k') eqn:E2; [lia|].
-    now rewrite IH.
+    cbn [map fst In] in H. destruct (k =? k') eqn:E; [apply N.eqb_eq in E; exfalso; apply H; now left|].
+    rewrite IH; [reflexivity|tauto].
+  Qed.
+
+  Lemma all_lt_notin k l : all_lt l k -> ~ In k (map fst l).
+  Proof.
+    intros H Hin. apply in_map_iff in Hin as (e & He & Hin). unfold all_lt in H. rewrite Forall_forall in H.
+    apply H in Hin. lia.
+  Qed.
+
+  Lemma db_set_append k v l : all_lt l k -> db_set k v l = l ++ [(k, v)].
+  Proof. intros H. apply db_set_fresh, all_lt_notin, H. Qed.
+
+  (** re-assigning the value a key already has changes nothing *)
+  Lemma db_set_same k v l : db_get k l = Some v -> db_set k v l = l.
+  Proof.
+    induction l as [|[k' v'] r IH]; cbn [db_get db_set]; [discriminate|].
+    rewrite (N.eqb_sym k k'). destruct (k' =? k) eqn:E.
+    - intros H. injection H as ->. apply N.eqb_eq in E. now subst.
+    - intros H. now rewrite IH.
   Qed.
 
   Lemma db_set_all_append lo es l : incr lo es -> all_lt l lo -> db_set_all es l = l ++ es.
@@ -1323,48 +1340,176 @@ Proof.
   destruct (k =? h); [reflexivity|exact IH].
 Qed.
 
+(** ** sorting handles *)
+
+Lemma insertN_perm x l : Permutation (x :: l) (insertN x l).
+Proof.
+  induction l as [|y r IH]; cbn [insertN]; [reflexivity|].
+  destruct (x <=? y); [reflexivity|]. rewrite perm_swap. now constructor.
+Qed.
+
+Lemma sortN_perm l : Permutation l (sortN l).
+Proof.
+  induction l as [|x r IH]; cbn [sortN]; [constructor|].
+  rewrite <- insertN_perm. now constructor.
+Qed.
+
+Lemma insertN_asc x l : ascending l -> ~ In x l -> ascending (insertN x l).
+Proof.
+  induction l as [|y r IH]; cbn [insertN ascending In]; [intros _ _; repeat constructor|]. intros [Hy Hr] Hx.
+  destruct (x <=? y) eqn:E.
+  - cbn [ascending]. assert (x < y) by (apply N.leb_le in E; assert (x <> y) by (intros ->; apply Hx; now left); lia).
+    split; [|split; assumption]. constructor; [assumption|]. eapply Forall_impl; [|exact Hy]. cbn. intros; lia.
+  - cbn [ascending]. apply N.leb_gt in E. split; [|apply IH; [exact Hr|tauto]].
+    rewrite Forall_forall in *. intros z Hz. apply (Permutation_in _ (Permutation_sym (insertN_perm x r))) in Hz.
+    destruct Hz as [<-|Hz]; [exact E|now apply Hy].
+Qed.
+
+Lemma sortN_asc l : NoDup l -> ascending (sortN l).
+Proof.
+  induction 1 as [|x r Hx Hnd IH]; cbn [sortN]; [exact I|].
+  apply insertN_asc; [exact IH|]. intros Hin. apply Hx. now apply (Permutation_in _ (Permutation_sym (sortN_perm r))).
+Qed.
+
+Lemma asc_perm_eq l : forall l', ascending l -> ascending l' -> Permutation l l' -> l = l'.
+Proof.
+  induction l as [|x r IH]; intros l' Ha Ha' Hp.
+  - now apply Permutation_nil in Hp.
+  - destruct l' as [|y r']; [apply Permutation_sym, Permutation_nil in Hp; discriminate|].
+    cbn [ascending] in Ha, Ha'. destruct Ha as [Hx Hr], Ha' as [Hy Hr'].
+    rewrite Forall_forall in Hx, Hy.
+    assert (Exy : x = y).
+    { assert (H1 : In x (y :: r')) by (apply (Permutation_in _ Hp); now left).
+      assert (H2 : In y (x :: r)) by (apply (Permutation_in _ (Permutation_sym Hp)); now left).
+      destruct H1 as [H1|H1]; [now symmetry|]. destruct H2 as [H2|H2]; [exact H2|].
+      apply Hy in H1. apply Hx in H2. lia. }
+    subst y. f_equal. apply IH; [exact Hr|exact Hr'|]. now apply Permutation_cons_inv in Hp.
+Qed.
+
+Lemma ascending_NoDup l : ascending l -> NoDup l.
+Proof.
+  induction l as [|x r IH]; cbn [ascending]; [constructor|]. intros [Hx Hr]. constructor; [|now apply IH].
+  intros Hin. rewrite Forall_forall in Hx. apply Hx in Hin. lia.
+Qed.
+
+Lemma ascending_filter f l : ascending l -> ascending (filter f l).
+Proof.
+  induction l as [|x r IH]; cbn [ascending filter]; [trivial|]. intros [Hx Hr].
+  destruct (f x); [|now apply IH]. cbn [ascending]. split; [|now apply IH].
+  rewrite Forall_forall in *. intros y Hy. apply filter_In in Hy as [Hy _]. now apply Hx.
+Qed.
+
+Lemma Permutation_filter' {A} (f : A -> bool) l l' : Permutation l l' -> Permutation (filter f l) (filter f l').
+Proof.
+  induction 1 as [|x l l' _ IH|x y l|l l' l'' _ IH1 _ IH2]; cbn [filter].
+  - constructor.
+  - destruct (f x); [now constructor|exact IH].
+  - destruct (f x), (f y); try reflexivity. apply perm_swap.
+  - now transitivity (filter f l').
+Qed.
+
+Lemma Permutation_flat_map' {A B} (f : A -> list B) l l' : Permutation l l' -> Permutation (flat_map f l) (flat_map f l').
+Proof.
+  induction 1 as [|x l l' _ IH|x y l|l l' l'' _ IH1 _ IH2]; cbn [flat_map].
+  - constructor.
+  - now apply Permutation_app_head.
+  - rewrite !app_assoc. apply Permutation_app_tail, Permutation_app_comm.
+  - now transitivity (flat_map f l').
+Qed.
+
+Lemma incr_ascending {V} lo (l : list (N * V)) : incr lo l -> ascending (map fst l).
+Proof.
+  revert lo; induction l as [|e r IH]; intros lo; cbn [incr map ascending]; [trivial|].
+  intros [H1 H2]. split; [|eapply IH; exact H2]. apply incr_all_ge in H2. unfold all_ge in H2.
+  rewrite Forall_forall in *. intros y Hy. apply in_map_iff in Hy as (e' & <- & He'). apply H2 in He'. lia.
+Qed.
+
+Lemma filter_map_fst {V} (f : N -> bool) (l : list (N * V)) :
+  filter f (map fst l) = map fst (filter (fun e => f (fst e)) l).
+Proof. induction l as [|e r IH]; cbn [map filter]; [reflexivity|]. destruct (f (fst e)); cbn [map]; now rewrite IH. Qed.
+
+(** * Lookups agree with the layout, whatever the registration order of the dict *)
+
+Lemma keys_dump p : map fst (dump p) = map fst (p_db p).
+Proof. unfold dump. rewrite map_map. reflexivity. Qed.
+
+Lemma agrees_NoDup p : db_agrees p -> NoDup (map fst (dump p)).
+Proof.
+  intros (Hp & Ha & _). apply (Permutation_NoDup (l := map fst (flat_map svc_dump (p_svcs p)))).
+  - apply Permutation_map, Permutation_sym, Hp.
+  - now apply ascending_NoDup.
+Qed.
+
 (** find_object_by_handle(h) returns exactly the attribute the layout puts at h *)
-Theorem lookup_by_handle g p h a :
-  layout g p -> (find_by_handle p h = Some a <-> In (h, a) (flat_map svc_dump (p_svcs p))).
+Theorem lookup_by_handle p h a :
+  db_agrees p -> (find_by_handle p h = Some a <-> In (h, a) (flat_map svc_dump (p_svcs p))).
 Proof.
-  intros HL. pose proof (layout_distinct _ _ HL) as Hnd. destruct HL as (_ & Hd & _).
-  unfold find_by_handle. rewrite <- db_get_map. fold (dump p). rewrite <- Hd. split.
-  - apply db_get_Some_In.
-  - now apply db_get_In.
+  intros HA. pose proof (agrees_NoDup _ HA) as Hnd. destruct HA as (Hp & _).
+  unfold find_by_handle. rewrite <- db_get_map. fold (dump p). split.
+  - intros H. apply db_get_Some_In in H. now apply (Permutation_in _ Hp).
+  - intros H. apply db_get_In; [exact Hnd|]. now apply (Permutation_in _ (Permutation_sym Hp)).
 Qed.
 
-Theorem lookup_by_handle_own g p h a : layout g p -> find_by_handle p h = Some a -> attr_handle a = h.
+Lemma svc_dump_all_handles l :
+  Forall (fun e => attr_handle (snd e) = fst e /\ snd e <> ADangling) (flat_map svc_dump l).
 Proof.
-  intros HL H. pose proof (layout_handles _ _ HL) as Hh. apply (lookup_by_handle _ _ _ _ HL) in H.
-  destruct HL as (_ & Hd & _). rewrite <- Hd in H. rewrite Forall_forall in Hh. now apply Hh in H.
+  apply Forall_forall. intros e He. apply in_flat_map in He as (s & _ & He).
+  pose proof (svc_dump_handles s) as H. rewrite Forall_forall in H. now apply H.
 Qed.
 
-(** find_objects_by_range(a, b): the slice of the layout with a <= handle <= b, in order *)
-Theorem lookup_by_range g p a b :
-  layout g p ->
+Theorem lookup_by_handle_own p h a : db_agrees p -> find_by_handle p h = Some a -> attr_handle a = h.
+Proof.
+  intros HA H. apply (lookup_by_handle _ _ _ HA) in H.
+  pose proof (svc_dump_all_handles (p_svcs p)) as Hh. rewrite Forall_forall in Hh. now apply Hh in H.
+Qed.
+
+(** find_objects_by_range(a, b): the slice of the layout with a <= handle <= b, in ascending
+    order (the code sorts the handles it collected from the dict) *)
+Theorem lookup_by_range p a b :
+  db_agrees p ->
   find_by_range p a b = map snd (filter (fun e => (a <=? fst e) && (fst e <=? b)) (flat_map svc_dump (p_svcs p))).
-Proof. intros (_ & Hd & _). unfold find_by_range. now rewrite Hd. Qed.
-
-(** attr_by_type_uuid(u, a, b): handles of the layout's attributes of that type in range *)
-Theorem lookup_by_type g p u a b :
-  layout g p ->
-  find_by_type p u a b
-  = map fst (filter (fun e => uuid_eqb (attr_type (snd e)) u && (a <=? fst e) && (fst e <=? b))
-                    (flat_map svc_dump (p_svcs p))).
 Proof.
-  intros HL. pose proof (layout_handles _ _ HL) as Hh. destruct HL as (_ & Hd & _).
-  unfold find_by_type. rewrite <- Hd. rewrite Forall_forall in Hh.
-  rewrite (filter_ext_in _ (fun e => uuid_eqb (attr_type (snd e)) u && (a <=? fst e) && (fst e <=? b))).
-  - apply map_ext_in. intros e He. apply filter_In in He as [He _]. now apply Hh.
-  - intros e He. destruct (Hh _ He) as [-> _]. reflexivity.
+  intros HA. pose proof (agrees_NoDup _ HA) as Hnd. pose proof HA as (Hp & Ha & _).
+  unfold find_by_range. set (L := flat_map svc_dump (p_svcs p)) in *.
+  set (f := fun k => (a <=? k) && (k <=? b)).
+  assert (Es : sortN (filter f (map fst (p_db p))) = filter f (map fst L)).
+  { apply asc_perm_eq.
+    - apply sortN_asc. rewrite <- keys_dump. apply NoDup_filter, Hnd.
+    - now apply ascending_filter.
+    - rewrite <- sortN_perm, <- keys_dump. apply Permutation_filter', Permutation_map, Hp. }
+  rewrite Es, filter_map_fst. fold f.
+  assert (G : forall l, (forall e, In e l -> In e L) ->
+              flat_map (fun h => match find_by_handle p h with Some x => [x] | None => [] end) (map fst l) = map snd l).
+  { induction l as [|[k v] r IH]; intros Hl; cbn [map flat_map fst snd]; [reflexivity|].
+    rewrite (proj2 (lookup_by_handle p k v HA)) by (apply Hl; now left).
+    cbn [app]. f_equal. apply IH. intros e He. apply Hl. now right. }
+  apply G. intros e He. now apply filter_In in He.
 Qed.
 
-(** service(uuid): the services of the layout with that UUID *)
-Theorem lookup_service g p u :
-  layout g p -> find_services p u = map s_handle (filter (fun s => uuid_eqb (s_uuid s) u) (p_svcs p)).
+(** attr_by_type_uuid(u, a, b) yields exactly the layout's attributes of that type in range
+    (in the order the dict holds them) *)
+Theorem lookup_by_type p u a b :
+  db_agrees p ->
+  Permutation (find_by_type p u a b)
+              (map fst (filter (fun e => uuid_eqb (attr_type (snd e)) u && (a <=? fst e) && (fst e <=? b))
+                               (flat_map svc_dump (p_svcs p)))).
 Proof.
-  intros (_ & Hd & _). unfold find_services. rewrite Hd. clear Hd.
-  induction (p_svcs p) as [|s r IH]; cbn [flat_map filter map]; [reflexivity|].
+  intros (Hp & _). unfold find_by_type.
+  set (g := fun e : N * attr => uuid_eqb (attr_type (snd e)) u && (a <=? attr_handle (snd e)) && (attr_handle (snd e) <=? b)).
+  transitivity (map (fun e : N * attr => attr_handle (snd e)) (filter g (flat_map svc_dump (p_svcs p)))).
+  - apply Permutation_map, Permutation_filter', Hp.
+  - pose proof (svc_dump_all_handles (p_svcs p)) as Hh. rewrite Forall_forall in Hh.
+    rewrite (filter_ext_in g (fun e => uuid_eqb (attr_type (snd e)) u && (a <=? fst e) && (fst e <=? b))).
+    + erewrite map_ext_in; [reflexivity|]. intros e He. apply filter_In in He as [He _]. now apply Hh.
+    + intros e He. unfold g. destruct (Hh _ He) as [-> _]. reflexivity.
+Qed.
+
+Lemma services_of_dump u l :
+  flat_map (fun e : N * attr => match snd e with ASvc h _ u' _ => if uuid_eqb u' u then [h] else [] | _ => [] end)
+           (flat_map svc_dump l)
+  = map s_handle (filter (fun s => uuid_eqb (s_uuid s) u) l).
+Proof.
+  induction l as [|s r IH]; cbn [flat_map filter map]; [reflexivity|].
   rewrite flat_map_app, IH. unfold svc_dump at 1. cbn [flat_map snd].
   assert (E : flat_map (fun e : N * attr => match snd e with ASvc h _ u' _ => if uuid_eqb u' u then [h] else [] | _ => [] end)
                 (map (fun i => (i_handle i, AIncl (i_handle i) (i_uuid i))) (s_incls s) ++ flat_map chr_dump (s_chars s)) = []).
@@ -1376,13 +1521,12 @@ Proof.
   rewrite E, app_nil_r. destruct (uuid_eqb (s_uuid s) u); reflexivity.
 Qed.
 
-(** char(uuid): the characteristics of the layout with that UUID, in layout order *)
-Theorem lookup_char g p u :
-  layout g p ->
-  find_chars p u = map c_handle (filter (fun c => uuid_eqb (c_uuid c) u) (flat_map s_chars (p_svcs p))).
+Lemma chars_of_dump u l :
+  flat_map (fun e : N * attr => match snd e with AChar h u' _ _ _ _ => if uuid_eqb u' u then [h] else [] | _ => [] end)
+           (flat_map svc_dump l)
+  = map c_handle (filter (fun c => uuid_eqb (c_uuid c) u) (flat_map s_chars l)).
 Proof.
-  intros (_ & Hd & _). unfold find_chars. rewrite Hd. clear Hd.
-  induction (p_svcs p) as [|s r IH]; cbn [flat_map filter map]; [reflexivity|].
+  induction l as [|s r IH]; cbn [flat_map filter map]; [reflexivity|].
   rewrite flat_map_app, IH, filter_app, map_app. f_equal. unfold svc_dump. cbn [flat_map snd app].
   rewrite flat_map_app. replace (flat_map _ (map _ (s_incls s))) with (@nil N).
   - cbn [app]. induction (s_chars s) as [|c cs IHc]; cbn [flat_map filter map]; [reflexivity|].
@@ -1394,32 +1538,53 @@ Proof.
   - induction (s_incls s) as [|i is IHi]; cbn [map flat_map snd app]; [reflexivity|exact IHi].
 Qed.
 
+(** service(uuid) returns the first, in dict order, of exactly the services of the layout
+    with that UUID (so THE service when the UUID is used once, None when there is none) *)
+Theorem lookup_service p u :
+  db_agrees p -> Permutation (find_services p u) (map s_handle (filter (fun s => uuid_eqb (s_uuid s) u) (p_svcs p))).
+Proof. intros (Hp & _). unfold find_services. rewrite <- services_of_dump. apply Permutation_flat_map', Hp. Qed.
+
+(** char(uuid): likewise for the characteristics *)
+Theorem lookup_char p u :
+  db_agrees p ->
+  Permutation (find_chars p u) (map c_handle (filter (fun c => uuid_eqb (c_uuid c) u) (flat_map s_chars (p_svcs p)))).
+Proof. intros (Hp & _). unfold find_chars. rewrite <- chars_of_dump. apply Permutation_flat_map', Hp. Qed.
+
 (** find_characteristic_by_value_handle *)
-Theorem lookup_value_handle g p s c :
-  layout g p -> In s (p_svcs p) -> In c (s_chars s) ->
+Theorem lookup_value_handle p s c :
+  db_agrees p -> In s (p_svcs p) -> In c (s_chars s) ->
   find_chr_by_value_handle p (c_vhandle c) = LSome (c_handle c).
 Proof.
-  intros HL Hs Hc. unfold find_chr_by_value_handle.
+  intros HA Hs Hc. unfold find_chr_by_value_handle.
   assert (H : find_by_handle p (c_vhandle c) = Some (AVal (c_vhandle c) (c_uuid c) (c_value c) (c_handle c))).
-  { apply (lookup_by_handle _ _ _ _ HL). apply in_flat_map. exists s. split; [exact Hs|].
+  { apply (lookup_by_handle _ _ _ HA). apply in_flat_map. exists s. split; [exact Hs|].
     unfold svc_dump. right. apply in_or_app. right. apply in_flat_map. exists c. split; [exact Hc|].
     unfold chr_dump. right. now left. }
   now rewrite H.
 Qed.
 
 (** find_service_by_characteristic_handle *)
-Theorem lookup_service_of_char g p s c :
-  layout g p -> In s (p_svcs p) -> In c (s_chars s) ->
+Theorem lookup_service_of_char p s c :
+  db_agrees p -> In s (p_svcs p) -> In c (s_chars s) ->
   find_svc_by_chr_handle p (c_handle c) = LSome (s_handle s).
 Proof.
-  intros (_ & _ & _ & Hv & Hnd) Hs Hc. unfold find_svc_by_chr_handle.
+  intros (_ & _ & Hv & Hnd) Hs Hc. unfold find_svc_by_chr_handle.
   assert (H : db_get (c_handle c) (cmap_view p) = Some (Some (s_handle s))).
   { apply db_get_In.
     - unfold cmap_view. now rewrite map_map.
-    - rewrite Hv. apply in_flat_map. exists s. split; [exact Hs|]. apply in_map_iff. now exists c. }
+    - apply (Permutation_in _ (Permutation_sym Hv)). apply in_flat_map. exists s. split; [exact Hs|]. apply in_map_iff. now exists c. }
   unfold cmap_view in H. rewrite (db_get_map (fun sid => option_map s_handle (find_svc sid (p_svcs p)))) in H.
   destruct (db_get (c_handle c) (p_cmap p)) as [sid|]; cbn [option_map] in H; [|discriminate].
   injection H as H. destruct (find_svc sid (p_svcs p)); cbn [option_map] in H; [|discriminate]. now injection H as ->.
+Qed.
+
+(** the exact layout (class-built profiles and every operation sequence) is a special case:
+    there the dict order IS the ascending order *)
+Theorem layout_agrees g p : layout g p -> db_agrees p.
+Proof.
+  intros (_ & Hd & Hs & Hv & Hnd). unfold db_agrees. rewrite Hd, Hv.
+  split; [reflexivity|]. split; [|split; [reflexivity|exact Hnd]].
+  eapply incr_ascending. apply (svcs_spec_incr _ _ _ _ Hs).
 Qed.
 
 (** * SecurityAccess conversions *)
